@@ -204,28 +204,28 @@ Proof.
   - rewrite (gp_miss _ _ _ _ _ L) in G. inversion G; subst. clear G.
     destruct INV as ((I1 & I2) & J & (C1 & C2 & C3 & C4)).
     split; [split|split]; cbn [p2t t2p ctr].
-    + intros el0 ty0 cl0 c H. cbn [t2p_get p2t_get] in *.
+    + intros el0 ty0 cl0 c H. cbn [p2t t2p ctr t2p_get p2t_get] in *.
       destruct (key_eqb (el0, ty0, cl0) (knorm el, ty, cl)) eqn:E.
       * inversion H; subst. apply key_eqb_eq in E. inversion E; subst. rewrite N.eqb_refl. eauto.
       * destruct (C2 _ _ H) as [Ha Hb]. destruct (N.eqb c (ctr s + 1)) eqn:E2; [apply N.eqb_eq in E2; lia|].
         eauto.
-    + intros c e ty0 cl0 H. cbn [t2p_get p2t_get] in *. destruct (N.eqb c (ctr s + 1)) eqn:E2.
+    + intros c e ty0 cl0 H. cbn [p2t t2p ctr t2p_get p2t_get] in *. destruct (N.eqb c (ctr s + 1)) eqn:E2.
       * apply N.eqb_eq in E2. inversion H; subst. exists (knorm el). rewrite key_eqb_refl. reflexivity.
       * destruct (I2 _ _ _ _ H) as [el0 H0]. exists el0.
         destruct (key_eqb (el0, ty0, cl0) (knorm el, ty, cl)) eqn:E; [|exact H0].
         apply key_eqb_eq in E. rewrite E in H0. congruence.
-    + intros k1 k2 c H1 H2. cbn [t2p_get] in H1, H2.
+    + intros k1 k2 c H1 H2. cbn [p2t t2p ctr t2p_get] in H1, H2.
       destruct (key_eqb k1 (knorm el, ty, cl)) eqn:E1; destruct (key_eqb k2 (knorm el, ty, cl)) eqn:E2.
       * apply key_eqb_eq in E1, E2. congruence.
       * inversion H1; subst. destruct (C2 _ _ H2). lia.
       * inversion H2; subst. destruct (C2 _ _ H1). lia.
       * eauto.
     + split; [|split; [|split]]; cbn [p2t t2p ctr length].
-      * intros c e H. cbn [p2t_get] in H. destruct (N.eqb c (ctr s + 1)) eqn:E2.
+      * intros c e H. cbn [p2t t2p ctr p2t_get] in H. destruct (N.eqb c (ctr s + 1)) eqn:E2.
         -- apply N.eqb_eq in E2. subst c.
            assert (PLACEHOLDER_START <= ctr s) by lia. lia.
         -- destruct (C1 _ _ H). lia.
-      * intros k c H. cbn [t2p_get] in H. destruct (key_eqb k (knorm el, ty, cl)).
+      * intros k c H. cbn [p2t t2p ctr t2p_get] in H. destruct (key_eqb k (knorm el, ty, cl)).
         -- inversion H; subst. assert (PLACEHOLDER_START <= ctr s) by lia. lia.
         -- destruct (C2 _ _ H). lia.
       * lia.
@@ -255,7 +255,7 @@ Proof.
   intros s el store ty cl s' c m G.
   destruct (t2p_get (t2p s) (knorm el, ty, cl)) as [c0|] eqn:L.
   - rewrite (gp_hit _ _ _ _ _ _ L) in G. inversion G; subst. exact L.
-  - rewrite (gp_miss _ _ _ _ _ L) in G. inversion G; subst. cbn. rewrite key_eqb_refl. reflexivity.
+  - rewrite (gp_miss _ _ _ _ _ L) in G. inversion G; subst. cbn [t2p t2p_get]. rewrite key_eqb_refl. reflexivity.
 Qed.
 
 Lemma gp_ctr : forall s el store ty cl s' c m,
@@ -265,4 +265,293 @@ Proof.
   destruct (t2p_get (t2p s) (knorm el, ty, cl)) as [c0|] eqn:L.
   - rewrite (gp_hit _ _ _ _ _ _ L) in G. inversion G; subst. lia.
   - rewrite (gp_miss _ _ _ _ _ L) in G. inversion G; subst. cbn. lia.
+Qed.
+
+(* ------------------------------------------------- unfolding the loops *)
+Lemma flat_kid_go_eq : forall fmt ks s,
+  (fix go (s : state) (ks : list xtree) {struct ks} : state * str * list bool :=
+     match ks with
+     | [] => (s, [], [])
+     | k :: ks' =>
+       let '(s', t1, m1) := flat_kid fmt s k in
+       let '(s'', t2, m2) := go s' ks' in (s'', t1 ++ t2, m1 ++ m2)
+     end) s ks = flat_kids fmt s ks.
+Proof.
+  induction ks as [|k ks IH]; intro s; [reflexivity|].
+  cbn [flat_kids]. destruct (flat_kid fmt s k) as [[s' t1] m1]. rewrite IH. reflexivity.
+Qed.
+
+Lemma flat_kid_unfold : forall fmt s tag attrs text tail kids,
+  flat_kid fmt s (XNode tag attrs text tail kids) =
+  let c0 := XNode tag attrs text [] kids in
+  if mem tag fmt then
+    let '(s1, phc, _) := gp s c0 (strip c0) TClose None in
+    let '(s2, pho, _) := gp s1 c0 (strip c0) TOpen (Some phc) in
+    let '(s3, inner, mk) := flat_kids fmt s2 kids in
+    (s3, pho :: otxt text ++ inner ++ phc :: tail, mk)
+  else
+    let '(s1, ph, miss) := gp s c0 c0 TSingle None in
+    (s1, ph :: tail, [miss]).
+Proof.
+  intros. cbn [flat_kid]. cbv zeta. destruct (mem tag fmt); [|reflexivity].
+  destruct (gp s _ _ TClose None) as [[s1 phc] m1].
+  destruct (gp s1 _ _ TOpen (Some phc)) as [[s2 pho] m2].
+  rewrite flat_kid_go_eq. reflexivity.
+Qed.
+
+Lemma dw_post_go_eq : forall tt fmt ks s mk,
+  (fix go (s : state) (mk : list bool) (ks : list xtree) {struct ks} : state * list bool :=
+     match ks with
+     | [] => (s, mk)
+     | k :: ks' => let '(s', mk', _) := dw tt fmt true s mk k in go s' mk' ks'
+     end) s mk ks = dw_post_kids tt fmt s mk ks.
+Proof.
+  induction ks as [|k ks IH]; intros s mk; [reflexivity|].
+  cbn [dw_post_kids]. destruct (dw tt fmt true s mk k) as [[s' mk'] k']. apply IH.
+Qed.
+Lemma dw_live_go_eq : forall tt fmt ks s,
+  (fix go (s : state) (ks : list xtree) {struct ks} : state * list xtree :=
+     match ks with
+     | [] => (s, [])
+     | k :: ks' =>
+       let '(s', _, k') := dw tt fmt false s [] k in
+       let '(s'', r) := go s' ks' in (s'', k' :: r)
+     end) s ks = dw_live_kids tt fmt s ks.
+Proof.
+  induction ks as [|k ks IH]; intros s; [reflexivity|].
+  cbn [dw_live_kids]. destruct (dw tt fmt false s [] k) as [[s' mk'] k']. rewrite IH. reflexivity.
+Qed.
+
+(* the body of [dw] for a live element (do_element on it if it is a text tag,
+   otherwise on to its children) *)
+Definition dw_live (tt fmt : list str) (s : state) (tag : str) (attrs : list (str * str)) (text : option str)
+           (tail' : str) (kids : list xtree) : state * xtree :=
+  if mem tag tt then
+    match kids with
+    | [] => (s, XNode tag attrs text tail' [])
+    | _ :: _ =>
+      let '(s1, txt1, mk) := flat_kids fmt s kids in
+      let '(s2, _) := dw_post_kids tt fmt s1 mk kids in
+      (s2, XNode tag attrs (Some (otxt text ++ txt1)) tail' [])
+    end
+  else
+    let '(s1, kids') := dw_live_kids tt fmt s kids in
+    (s1, XNode tag attrs text tail' kids').
+
+Lemma dw_unfold : forall tt fmt post s marks tag attrs text tail kids,
+  dw tt fmt post s marks (XNode tag attrs text tail kids) =
+  if post then
+    if mem tag fmt then
+      let '(s', mk') := dw_post_kids tt fmt s marks kids in (s', mk', XNode tag attrs text tail kids)
+    else
+      let '(s1, t') := dw_live tt fmt s tag attrs text [] kids in
+      match marks with
+      | true :: rest => (store_final s1 (XNode tag attrs text [] kids) t', rest, t')
+      | false :: rest => (s1, rest, t')
+      | [] => (s1, [], t')
+      end
+  else let '(s1, t') := dw_live tt fmt s tag attrs text tail kids in (s1, marks, t').
+Proof.
+  intros. cbn [dw]. cbv zeta. unfold dw_live.
+  rewrite !dw_post_go_eq. rewrite !dw_live_go_eq.
+  destruct post; [destruct (mem tag fmt)|]; try reflexivity.
+  - destruct (mem tag tt); [destruct kids|]; try reflexivity.
+    + destruct (flat_kids fmt s (x :: kids)) as [[s1 txt1] mk]. cbn [dw_post_kids].
+      destruct (dw tt fmt true s1 mk x) as [[s' mk'] k']. rewrite dw_post_go_eq. reflexivity.
+  - destruct (mem tag tt); [destruct kids|]; try reflexivity.
+    + destruct (flat_kids fmt s (x :: kids)) as [[s1 txt1] mk]. cbn [dw_post_kids].
+      destruct (dw tt fmt true s1 mk x) as [[s' mk'] k']. rewrite dw_post_go_eq. reflexivity.
+Qed.
+
+(* ------------------------------------- every operation keeps the invariants *)
+Definition step_ok (s s' : state) : Prop := ph_inv s -> ph_inv s' /\ ext s s'.
+
+Lemma step_ok_refl : forall s, step_ok s s.
+Proof. intros s H. split; [exact H | apply ext_refl]. Qed.
+Lemma step_ok_trans : forall a b c, step_ok a b -> step_ok b c -> step_ok a c.
+Proof.
+  intros a b c H1 H2 I. destruct (H1 I) as [Ib Eb]. destruct (H2 Ib) as [Ic Ec].
+  split; [exact Ic | eapply ext_trans; eauto].
+Qed.
+Lemma gp_ok : forall s el store ty cl s' c m, gp s el store ty cl = (s', c, m) -> step_ok s s'.
+Proof. intros. intro I. split; [eapply gp_inv; eauto | eapply gp_ext; eauto]. Qed.
+Lemma set_elem_ok : forall s ph e, step_ok s (set_elem s ph e).
+Proof. intros s ph e I. split; [apply set_elem_inv; exact I | apply set_elem_ext]. Qed.
+Lemma store_final_ok : forall s c0 t', step_ok s (store_final s c0 t').
+Proof.
+  intros s c0 t'. unfold store_final. destruct (t2p_get (t2p s) (knorm c0, TSingle, None)).
+  - apply set_elem_ok.
+  - apply step_ok_refl.
+Qed.
+
+Lemma flat_kids_ok_of : forall fmt ks,
+  Forall (fun c => forall s s' txt mk, flat_kid fmt s c = (s', txt, mk) -> step_ok s s') ks ->
+  forall s s' txt mk, flat_kids fmt s ks = (s', txt, mk) -> step_ok s s'.
+Proof.
+  intros fmt ks F. induction F as [|k ks Hk _ IH]; intros s s' txt mk E; cbn [flat_kids] in E.
+  - inversion E; subst. apply step_ok_refl.
+  - destruct (flat_kid fmt s k) as [[s1 t1] m1] eqn:E1. destruct (flat_kids fmt s1 ks) as [[s2 t2] m2] eqn:E2.
+    inversion E; subst. eapply step_ok_trans; eauto.
+Qed.
+
+Lemma flat_kid_ok : forall fmt c s s' txt mk, flat_kid fmt s c = (s', txt, mk) -> step_ok s s'.
+Proof.
+  intros fmt c. induction c as [tag attrs text tail kids IH] using xtree_ind2. intros s s' txt mk E.
+  rewrite flat_kid_unfold in E. cbv zeta in E. destruct (mem tag fmt).
+  - destruct (gp s _ _ TClose None) as [[s1 phc] m1] eqn:G1.
+    destruct (gp s1 _ _ TOpen (Some phc)) as [[s2 pho] m2] eqn:G2.
+    destruct (flat_kids fmt s2 kids) as [[s3 inner] mk3] eqn:E3. inversion E; subst.
+    eapply step_ok_trans; [eapply gp_ok; eauto|]. eapply step_ok_trans; [eapply gp_ok; eauto|].
+    eapply flat_kids_ok_of; eauto.
+  - destruct (gp s _ _ TSingle None) as [[s1 ph] miss] eqn:G1. inversion E; subst. eapply gp_ok; eauto.
+Qed.
+Lemma flat_kids_ok : forall fmt ks s s' txt mk, flat_kids fmt s ks = (s', txt, mk) -> step_ok s s'.
+Proof.
+  intros fmt ks. apply flat_kids_ok_of. apply Forall_forall. intros c _. apply flat_kid_ok.
+Qed.
+
+Definition dw_okP (tt fmt : list str) (t : xtree) : Prop :=
+  forall post s marks s' mk' t', dw tt fmt post s marks t = (s', mk', t') -> step_ok s s'.
+
+Lemma dw_post_kids_ok_of : forall tt fmt ks, Forall (dw_okP tt fmt) ks ->
+  forall s mk s' mk', dw_post_kids tt fmt s mk ks = (s', mk') -> step_ok s s'.
+Proof.
+  intros tt fmt ks F. induction F as [|k ks Hk _ IH]; intros s mk s' mk' E; cbn [dw_post_kids] in E.
+  - inversion E; subst. apply step_ok_refl.
+  - destruct (dw tt fmt true s mk k) as [[s1 mk1] k'] eqn:E1. eapply step_ok_trans; [eapply Hk; eauto | eauto].
+Qed.
+Lemma dw_live_kids_ok_of : forall tt fmt ks, Forall (dw_okP tt fmt) ks ->
+  forall s s' ks', dw_live_kids tt fmt s ks = (s', ks') -> step_ok s s'.
+Proof.
+  intros tt fmt ks F. induction F as [|k ks Hk _ IH]; intros s s' ks' E; cbn [dw_live_kids] in E.
+  - inversion E; subst. apply step_ok_refl.
+  - destruct (dw tt fmt false s [] k) as [[s1 mk1] k'] eqn:E1.
+    destruct (dw_live_kids tt fmt s1 ks) as [s2 r] eqn:E2. inversion E; subst.
+    eapply step_ok_trans; [eapply Hk; eauto | eauto].
+Qed.
+Lemma dw_live_ok_of : forall tt fmt kids, Forall (dw_okP tt fmt) kids ->
+  forall s tag attrs text tail' s' t', dw_live tt fmt s tag attrs text tail' kids = (s', t') -> step_ok s s'.
+Proof.
+  intros tt fmt kids F s tag attrs text tail' s' t' E. unfold dw_live in E. destruct (mem tag tt).
+  - destruct kids as [|k0 ks0]; [inversion E; subst; apply step_ok_refl|].
+    destruct (flat_kids fmt s (k0 :: ks0)) as [[s1 txt1] mk] eqn:E1.
+    destruct (dw_post_kids tt fmt s1 mk (k0 :: ks0)) as [s2 mk2] eqn:E2. inversion E; subst.
+    eapply step_ok_trans; [eapply flat_kids_ok; eauto | eapply dw_post_kids_ok_of; eauto].
+  - destruct (dw_live_kids tt fmt s kids) as [s1 kids'] eqn:E1. inversion E; subst.
+    eapply dw_live_kids_ok_of; eauto.
+Qed.
+
+Lemma dw_ok : forall tt fmt t, dw_okP tt fmt t.
+Proof.
+  intros tt fmt t. induction t as [tag attrs text tail kids IH] using xtree_ind2.
+  intros post s marks s' mk' t' E. rewrite dw_unfold in E. destruct post; [destruct (mem tag fmt)|].
+  - destruct (dw_post_kids tt fmt s marks kids) as [s1 mk1] eqn:E1. inversion E; subst.
+    eapply dw_post_kids_ok_of; eauto.
+  - destruct (dw_live tt fmt s tag attrs text [] kids) as [s1 t1] eqn:E1.
+    assert (L : step_ok s s1) by (eapply dw_live_ok_of; eauto).
+    destruct marks as [|[|] rest]; inversion E; subst; auto.
+    eapply step_ok_trans; [exact L | apply store_final_ok].
+  - destruct (dw_live tt fmt s tag attrs text tail kids) as [s1 t1] eqn:E1. inversion E; subst.
+    eapply dw_live_ok_of; eauto.
+Qed.
+
+Lemma do_tree_ok : forall tt fmt s T, step_ok s (fst (do_tree tt fmt s T)).
+Proof.
+  intros tt fmt s T. unfold do_tree. destruct (dw tt fmt false s [] T) as [[s' mk'] T'] eqn:E. cbn [fst].
+  eapply dw_ok; eauto.
+Qed.
+
+Lemma get_placeholder_ok : forall s k, step_ok s (fst (get_placeholder s k)).
+Proof.
+  intros s [[el ty] cl]. unfold get_placeholder. destruct (gp s el el ty cl) as [[s' ph] m] eqn:G. cbn [fst].
+  eapply gp_ok; eauto.
+Qed.
+
+Lemma mark_diff_ok : forall fmt s ph a at_ s' c, mark_diff fmt s ph a at_ = Ok (s', c) -> step_ok s s'.
+Proof.
+  intros fmt s ph a at_ s' c E. unfold mark_diff in E.
+  destruct (p2t_get (p2t s) ph) as [[[el ty] cl]|]; [|discriminate].
+  destruct ty.
+  - destruct (gp s _ _ TOpen cl) as [[s1 c1] m] eqn:G. inversion E; subst. eapply gp_ok; eauto.
+  - inversion E; subst. apply step_ok_refl.
+  - destruct (gp s _ _ TSingle cl) as [[s1 c1] m] eqn:G. inversion E; subst. eapply gp_ok; eauto.
+Qed.
+Lemma wrap_diff_ok : forall s x a at_ s' r, wrap_diff s x a at_ = Ok (s', r) -> step_ok s s'.
+Proof.
+  intros s x a at_ s' r E. unfold wrap_diff in E. destruct (diff_tags a) as [open_ph close_ph].
+  destruct at_ as [|kv at_]; [inversion E; subst; apply step_ok_refl|].
+  destruct (p2t_get (p2t s) open_ph) as [[[el ty] cl]|]; [|discriminate].
+  destruct (gp s _ _ ty cl) as [[s1 c1] m] eqn:G. inversion E; subst. eapply gp_ok; eauto.
+Qed.
+
+Lemma ph_step_ok : forall tt fmt s o, step_ok s (ph_step tt fmt s o).
+Proof.
+  intros tt fmt s o. destruct o as [el ty cl|ph a at_|x a at_|T]; cbn [ph_step].
+  - apply get_placeholder_ok.
+  - destruct (mark_diff fmt s ph a at_) as [[s' c]|e] eqn:E; [eapply mark_diff_ok; eauto | apply step_ok_refl].
+  - destruct (wrap_diff s x a at_) as [[s' c]|e] eqn:E; [eapply wrap_diff_ok; eauto | apply step_ok_refl].
+  - apply do_tree_ok.
+Qed.
+
+Lemma fold_ok : forall tt fmt ops s, step_ok s (fold_left (ph_step tt fmt) ops s).
+Proof.
+  intros tt fmt ops. induction ops as [|o ops IH]; intro s; cbn [fold_left].
+  - apply step_ok_refl.
+  - eapply step_ok_trans; [apply ph_step_ok | apply IH].
+Qed.
+
+Lemma ph_inv_empty : ph_inv (mkst [] [] PLACEHOLDER_START).
+Proof.
+  split; [split|split]; cbn.
+  - intros; discriminate.
+  - intros; discriminate.
+  - intros k1 k2 c H; discriminate.
+  - split; [|split; [|split]]; cbn; intros; try discriminate; reflexivity.
+Qed.
+Lemma init_pair_ok : forall s name, step_ok s (init_pair s name).
+Proof.
+  intros s name. unfold init_pair.
+  destruct (gp s _ _ TClose None) as [[s1 c] m1] eqn:G1.
+  destruct (gp s1 _ _ TOpen (Some c)) as [[s2 c2] m2] eqn:G2.
+  eapply step_ok_trans; eapply gp_ok; eauto.
+Qed.
+Lemma ph_inv_init : ph_inv ph_init.
+Proof.
+  unfold ph_init.
+  apply (init_pair_ok _ s_replace). apply (init_pair_ok _ s_delete). apply (init_pair_ok _ s_insert).
+  apply ph_inv_empty.
+Qed.
+
+(* --------------------------------------------------------- the theorems *)
+Theorem tables_thm : forall tt fmt ops,
+  let s := fold_left (ph_step tt fmt) ops ph_init in
+  inverse_tables s /\ injective_on_keys s /\ counter_ok s.
+Proof. intros tt fmt ops s. apply (fold_ok tt fmt ops ph_init). apply ph_inv_init. Qed.
+
+Theorem same_key_same_ph_thm : forall s k s' c,
+  ph_inv s -> get_placeholder s k = (s', c) -> get_placeholder s' k = (s', c).
+Proof.
+  intros s [[el ty] cl] s' c _ E. unfold get_placeholder in *.
+  destruct (gp s el el ty cl) as [[s1 c1] m] eqn:G. inversion E; subst.
+  rewrite (gp_hit _ _ _ _ _ _ (gp_bound _ _ _ _ _ _ _ _ G)). reflexivity.
+Qed.
+
+Theorem distinct_thm : forall s k1 k2 c1 c2,
+  ph_inv s -> key_norm k1 <> key_norm k2 ->
+  placeholder_of s k1 = Some c1 -> placeholder_of s k2 = Some c2 -> c1 <> c2.
+Proof.
+  intros s [[e1 t1] l1] [[e2 t2] l2] c1 c2 (_ & J & _) N H1 H2 E. subst c2.
+  apply N. cbn [key_norm]. eapply J; eauto.
+Qed.
+
+(* whatever happens to the maker in between, a key keeps its placeholder *)
+Theorem same_in_two_docs_key : forall tt fmt s k s1 c ops,
+  ph_inv s -> get_placeholder s k = (s1, c) ->
+  let s2 := fold_left (ph_step tt fmt) ops s1 in get_placeholder s2 k = (s2, c).
+Proof.
+  intros tt fmt s [[el ty] cl] s1 c ops I E s2. unfold get_placeholder in *.
+  destruct (gp s el el ty cl) as [[s1' c1] m] eqn:G. inversion E; subst.
+  assert (I1 : ph_inv s1) by (eapply gp_inv; eauto).
+  destruct (fold_ok tt fmt ops s1 I1) as [_ (X & _)].
+  rewrite (gp_hit _ _ _ _ _ _ (X _ _ (gp_bound _ _ _ _ _ _ _ _ G))). reflexivity.
 Qed.
